@@ -899,6 +899,7 @@ func Run(r *monitor.Run) {
 					r.Violation("restored.unusable:"+ls[0], lw[0], map[string]any{"result": res})
 				}
 				r.Count("restored_session_scenarios", 1)
+				r.Count("stored_messages_in_no_gauge_right_after_a_restart_observed_only", int64(res.GaugeGapAtStart()))
 				r.Count("restored_session_drops_counted", int64(res.Client.MessageStats.Qos1.GetDroppedTotal()))
 				r.Nontrivial(fmt.Sprintf("restored|%s|%d|%v|%d", variant, v, api, k))
 			}(variant, vi, k)
